@@ -29,8 +29,8 @@ RULE = (
     "degrees or rotate != 0 or a node at r = 0 or centre != 0; pruned cases with a node within 1e-9 of a sector boundary "
     "are skipped as ambiguous; distinct = distinct descriptor. presets: complete enumeration of the 17 shipped preset "
     "files x every element that has a table in the file (Lebedev, radial grid of the prescribed size = sum of the "
-    "per-sector shell counts, 50 for sg_1, 30 nodes where nothing is prescribed) plus a few centre/rotate forwarding "
-    "cases; non-trivial = the table has more than one sector. presets-methods: the same enumeration for the other three "
+    "per-sector shell counts, 50 for sg_1, 30 nodes where nothing is prescribed) plus, for the presets that prescribe "
+    "nothing, rgrid=None (the library's default radial grid) for every element, plus a few centre/rotate forwarding cases; non-trivial = the table has more than one sector. presets-methods: the same enumeration for the other three "
     "angular methods (thorough: all; quick: a seeded sixth of the elements)"
 )
 ASSUMPTIONS = [
@@ -300,8 +300,13 @@ def body_preset(case, ctx):
         if got_n is not None and [int(v) for v in got_n] != [n]:
             ctx.fail("prescribed-size-helper", f"_get_rgrid_size({preset!r}, {z}) = {got_n}, the table prescribes {n}")
 
-    r, w = _own_radial(n, scale=1.0 + 0.01 * z)
-    rg = OneDGrid(r.copy(), w.copy(), (0, np.inf))
+    default_rgrid = case.get("rgrid") == "default"
+    if default_rgrid:
+        ctx.cls("rgrid:library-default")
+        rg = None
+    else:
+        r, w = _own_radial(n, scale=1.0 + 0.01 * z)
+        rg = OneDGrid(r.copy(), w.copy(), (0, np.inf))
     kw = {"method": method}
     if center is not None:
         kw["center"] = np.array(center, dtype=float)
@@ -310,6 +315,9 @@ def body_preset(case, ctx):
     try:
         ag = AtomGrid.from_preset(z, preset, rg, **kw)
     except Exception as exc:  # noqa: BLE001 - "every preset builds for every element it tabulates"
+        if default_rgrid and isinstance(exc, ValueError) and "Default radial grid parameters" in str(exc):
+            ctx.cls("rgrid:no-library-default-for-element")  # documented rejection
+            return
         msg = f"from_preset(atnum={z}, preset={preset!r}, rgrid of {n} nodes, method={method}) raised {type(exc).__name__}: {exc}; table rad={rad.tolist()[:8]} npt={npt.tolist()[:8]}"
         if (preset, z) == ("sg_3", 14):
             ctx.known("KF-C05-sg3-silicon", "preset-does-not-build", msg)
@@ -317,6 +325,10 @@ def body_preset(case, ctx):
             ctx.fail("preset-does-not-build", msg)
         return
 
+    if default_rgrid:  # the radial grid the library chose is the radial grid of the statement
+        r = np.array(ag.rgrid.points, dtype=float)
+        w = np.array(ag.rgrid.weights, dtype=float)
+        n = len(r)
     ind = np.asarray(ag.indices)
     if ind.shape != (n + 1,):
         ctx.fail("preset-shell-count", f"{preset}/{z}: {len(ind) - 1} shells for {n} radial nodes")
@@ -388,6 +400,10 @@ def cases_presets(method="lebedev", forwarding=True, pick=None):
         for z in els:
             if pick is None or pick(preset, z):
                 out.append({"preset": preset, "atnum": z, "method": method})
+        if forwarding and not prescribed_size(preset, els[0])[1]:
+            # rgrid=None: the documented default radial grid (power transform of a uniform rule) where nothing is prescribed
+            for z in els:
+                out.append({"preset": preset, "atnum": z, "method": method, "rgrid": "default"})
         if forwarding:
             for j, z in enumerate([els[0], els[len(els) // 3], els[-1]]):
                 out.append({"preset": preset, "atnum": z, "method": method, "center": [0.5 * j - 1.0, 2.0, -0.25 * z], "rotate": [7, 2**32 - 400, 123456][j]})
@@ -430,7 +446,7 @@ def selftest():
 def subchecks(tier, seed):
     quick = tier == "quick"
     return [
-        SubCheck("structure", body_structure, strategy=_structure_strategy(tier), examples=1600 if quick else 30000, cases=PINNED_STRUCTURE, shards=16),
+        SubCheck("structure", body_structure, strategy=_structure_strategy(tier), examples=8000 if quick else 250000, cases=PINNED_STRUCTURE, shards=16),
         SubCheck("presets", body_preset, cases=cases_presets("lebedev"), exhaustive=True, shards=32),
         SubCheck("presets-methods", body_preset, cases=cases_presets_methods(tier, seed), exhaustive=False, shards=32),
     ]
